@@ -38,8 +38,12 @@ ASSUMPTIONS = [
     'round-half-even and the half-slice limit, which is also probed EXACTLY (axis-aligned planes with power-of-two spacings)',
     'rounded outputs of batches are compared with the model only when no un-rounded entry lies within 1e-3 of a tie',
     'np.meshgrid(range(nc), range(nr), indexing="xy") stacked and reshaped enumerates tiles row by row with the column running fastest',
-    '__call__ receives numpy arrays (a list has no .shape: AttributeError, outside the model); the model sees ndim, shape[1], dtype kind and the rows',
-    'the record of Model/AffineImage.lean is filled from the pydicom dataset by the harness (_describe); is_multiframe_image is an input',
+    '__call__ on a numpy array: the model sees ndim, shape[1], dtype kind and the rows; a list / tuple is the argument `sequence` (refused, AttributeError)',
+    'the record of Model/AffineImage.lean is filled from the pydicom dataset by the harness (_describe) with RAW attributes; is_multiframe_image is an input',
+    'every item of PerFrameFunctionalGroupsSequence holds the same set of functional groups (DICOM PS3.3 C.7.6.16.1.2): get_image_coordinate_system '
+    'reads the first item only; the excluded images (position group missing in the first / in a later frame only) are run in the coordinate_system '
+    'stream on every run: no transformer resp. refusal of exactly the frames without position',
+    'SegmentSequence / OpticalPathSequence are present as the IOD requires (their absence is an AttributeError outside the model)',
 ]
 MODELLED_NOT_VERIFIED = ['numpy matmul / column_stack / vstack / broadcasting / linalg.inv / argsort / around / meshgrid',
                          'pydicom Dataset attribute access, DS -> float conversion',
@@ -699,6 +703,31 @@ def _batch_cases(ctx, reqs, pend):
             reqs.pop()
         else:
             pend.append((case, (st, val), 0 if (st == 'ok' and out.dtype.kind == 'i') else tol))
+    # ---- lists / tuples instead of arrays: no np.asarray is applied, every __call__ refuses them (AttributeError), however well-formed
+    for i in range(ctx.n(90, 300)):
+        r = ctx.rng('sequence', i)
+        cls = classes[i % 6]
+        pl = _plane(r)
+        k = 3 if cls in ('r2p', 'r2i') else 2
+        if cls in ('p2p', 'i2i'):
+            tr = (sp.PixelToPixelTransformer if cls == 'p2p' else sp.ImageToImageTransformer)(pl['pos'], pl['ori'], pl['ps'], pl['pos'], pl['ori'], pl['ps'])
+            margs = {'cls': cls, 'pos_f': RL(pl['pos']), 'ori_f': RL(pl['ori']), 'ps_f': RL(pl['ps']), 'pos_t': RL(pl['pos']), 'ori_t': RL(pl['ori']),
+                     'ps_t': RL(pl['ps'])}
+        else:
+            tr = {'p2r': sp.PixelToReferenceTransformer, 'r2p': sp.ReferenceToPixelTransformer, 'i2r': sp.ImageToReferenceTransformer,
+                  'r2i': sp.ReferenceToImageTransformer}[cls](pl['pos'], pl['ori'], pl['ps'])
+            margs = {'cls': cls, 'pos': RL(pl['pos']), 'ori': RL(pl['ori']), 'ps': RL(pl['ps']), 'sbs': '1'}
+        rows = [[r.randint(0, 50) for _ in range(k)] for _ in range(r.choice([0, 1, 2, 5]))]
+        form = r.choice(['list_of_lists', 'tuple_of_tuples', 'list_of_tuples', 'flat_list', 'ragged', 'deep', 'float_rows'])
+        arg = {'list_of_lists': rows, 'tuple_of_tuples': tuple(tuple(x) for x in rows), 'list_of_tuples': [tuple(x) for x in rows],
+               'flat_list': [1] * k, 'ragged': rows + [[1]], 'deep': [rows], 'float_rows': [[float(v) for v in x] for x in rows]}[form]
+        st, out = _call(tr, arg)
+        case = {'fn': 'call', 'cls': cls, 'argument': form, 'rows': len(rows), 'kind_matters': True}
+        ctx.case(fn='call', cls=cls, shape_kind='sequence:' + form, outcome=st if st == 'ok' else out, nontrivial_key=('call-seq', cls, form))
+        if st == 'ok' or out != 'attribute':
+            ctx.fail(case, f'a {form} is not refused with AttributeError: {st} {out if st != "ok" else ""}', site='batch')
+        reqs.append(('call', dict(margs, batch=None)))
+        pend.append((case, (st, out), 0))
     # ---- the two point helpers on index / coordinate sequences of every length and spelling
     for i in range(ctx.n(200, 600)):
         r = ctx.rng('helperB', i)
@@ -1590,7 +1619,8 @@ def _coord_cases(ctx, reqs, pend):
         else:
             ds, want = sources.single_image_no_for(3, 4), None
         edit = r.choice(['none', 'none', 'drop_for', 'add_slide_marker', 'add_center_point', 'drop_positions', 'position_in_second_frame_only',
-                         'drop_slide_orientation', 'add_root_position', 'empty_shared_groups', 'empty_plane_position'])
+                         'drop_slide_orientation', 'add_root_position', 'empty_shared_groups', 'empty_plane_position',
+                         'position_missing_in_second_frame'])
         ds = copy.deepcopy(ds)
         if edit == 'drop_for' and 'FrameOfReferenceUID' in ds:
             del ds.FrameOfReferenceUID
@@ -1612,6 +1642,8 @@ def _coord_cases(ctx, reqs, pend):
         elif edit == 'position_in_second_frame_only' and kind == 'perframe':
             del ds.PerFrameFunctionalGroupsSequence[0].PlanePositionSequence      # only the FIRST item is looked at
             want = None
+        elif edit == 'position_missing_in_second_frame' and kind == 'perframe':
+            del ds.PerFrameFunctionalGroupsSequence[1].PlanePositionSequence      # non-conformant the other way round: still PATIENT
         elif edit == 'drop_slide_orientation' and want == 'SLIDE':
             del ds.ImageOrientationSlide
             want = None
@@ -1632,11 +1664,88 @@ def _coord_cases(ctx, reqs, pend):
             ctx.fail(case, {'got': gv if st == 'ok' else got, 'want': want}, site='coordinate_system')
         reqs.append(('coordSystem', _coord_input(ds)))
         pend.append((case, (st, (None if gv is None else gv.lower()) if st == 'ok' else got), 0))
+        # the EXCLUDED, non-conformant images (per-frame items that disagree about the position group; ASSUMPTIONS): never a transformer
+        # with another frame's geometry - frames without a position are refused, frames with one get their own
+        if kind == 'perframe' and edit == 'position_missing_in_second_frame':
+            for cls in _tcls():
+                st1, t1 = _call(cls.for_image, ds, frame_number=1)
+                st2, t2 = _call(cls.for_image, ds, frame_number=2)
+                if st1 != 'ok' or st2 == 'ok':
+                    ctx.fail(dict(case, cls=cls.__name__), f'frame with position: {st1}; frame without position: {st2}', site='coordinate_system')
+            _for_image_compare(reqs, pend, case, ds, 1, False, TOL * 4096 * (1 + Fr(max(abs(x) for x in pl['pos']))))
+            _for_image_compare(reqs, pend, case, ds, 2, False, TOL * 4096 * (1 + Fr(max(abs(x) for x in pl['pos']))))
         # images without a coordinate system have no transformers
         if want is None:
             for cls in _tcls():
                 if _call(cls.for_image, ds, frame_number=1 if 'NumberOfFrames' in ds else None)[0] == 'ok':
                     ctx.fail(dict(case, cls=cls.__name__), 'a transformer is built for an image without coordinate system', site='coordinate_system')
+
+
+# ------------------------------------------------------------------ 5.1 two DIFFERENT images of one frame of reference
+def _cross_cases(ctx, reqs, pend):
+    """for_images between two different datasets that share a frame of reference: two enhanced multi-frame stacks over the same
+    planes (other in-plane origin, other pixel spacing, other number of frames) and two levels of a slide pyramid (TILED_FULL, other
+    tile size and spacing) - every combination of frame / total pixel matrix on both sides, both directions, both classes.  Oracle: the
+    transformer equals the explicit constructor on the attributes known from the construction of EACH side; refused iff the two
+    planes are different slices.  (A from / to mix-up that is invisible when both sides are the same dataset shows here.)"""
+    import copy
+    from highdicom import spatial as sp
+    from gen import sources
+    for i in range(ctx.n(60, 200)):
+        r = ctx.rng('cross', i)
+        pl = _plane(r)
+        row, col = np.array(pl['ori'][:3]), np.array(pl['ori'][3:])
+        nrm = np.cross(row, col)
+        kind = ['stacks', 'pyramid'][i % 2]
+        sides = []
+        if kind == 'stacks':
+            sl = _spacing(r)
+            for side in range(2):
+                nfr = r.randint(2, 4)
+                first = r.randint(0, 2)                       # the stack starts at this slice of the common grid
+                du, dv = (_dy(r, -40, 40), _dy(r, -40, 40)) if side else (0.0, 0.0)
+                ps = [_spacing(r), _spacing(r)] if side else pl['ps']
+                org = np.array(pl['pos']) + du * row + dv * col + first * sl * nrm
+                ds = sources.enhanced_multiframe(nfr, 2, 3, orientation=pl['ori'], origin=[float(x) for x in org], pixel_spacing=ps, slice_spacing=sl)
+                frames = [(f + 1, False, [float(x) for x in org + f * sl * nrm], first + f) for f in range(nfr)]
+                sides.append((ds, ps, frames))
+        else:
+            for side in range(2):
+                tr_, tc_ = r.randint(1, 3), r.randint(1, 3)
+                scale = 1 if side == 0 else r.choice([2, 4])
+                ps = [pl['ps'][0] * scale, pl['ps'][1] * scale]
+                trows, tcols = r.randint(2, 6), r.randint(2, 6)
+                ds, _ = sources.slide_image(trows, tcols, tr_, tc_, tiled_full=True, origin=(pl['pos'][0], pl['pos'][1], 0.0), pixel_spacing=ps,
+                                            orientation=pl['ori'])
+                ntw = -(-tcols // tc_)
+                org = np.array([pl['pos'][0], pl['pos'][1], 0.0])
+                frames = [(None, True, [float(x) for x in org], 0)]
+                for f in range(int(ds.NumberOfFrames)):
+                    a, b = divmod(f, ntw)
+                    frames.append((f + 1, False, [float(x) for x in org + b * tc_ * ps[1] * row + a * tr_ * ps[0] * col], 0))
+                sides.append((ds, ps, frames))
+        sides[1][0].FrameOfReferenceUID = sides[0][0].FrameOfReferenceUID
+        descs = [_describe(sides[0][0]), _describe(sides[1][0])]
+        case = {'fn': 'for_images', 'kind': 'cross_' + kind, 'plane': pl}
+        tol = TOL * 2 ** 24 * (1 + Fr(max(abs(x) for x in pl['pos'])))
+        for trial in range(4):
+            a_i = r.randrange(2)
+            (ds_f, ps_f, fr_f), (ds_t, ps_t, fr_t) = sides[a_i], sides[1 - a_i]
+            fno_f, tot_f, pos_f, slice_f = r.choice(fr_f)
+            fno_t, tot_t, pos_t, slice_t = r.choice(fr_t)
+            for cls2, kw in ((sp.PixelToPixelTransformer, {'round_output': False}), (sp.ImageToImageTransformer, {})):
+                st, t = _call(cls2.for_images, ds_f, ds_t, frame_number_from=fno_f, frame_number_to=fno_t, for_total_pixel_matrix_from=tot_f,
+                              for_total_pixel_matrix_to=tot_t, **kw)
+                st_w, want = _call(cls2, pos_f, pl['ori'], ps_f, pos_t, pl['ori'], ps_t, **kw)
+                ctx.case(fn='for_images', kind='cross_' + kind, same_slice=slice_f == slice_t, outcome=st if st == 'ok' else t,
+                         nontrivial_key=('cross', kind, cls2.__name__, slice_f == slice_t, tot_f, tot_t))
+                fcase = dict(case, cls=cls2.__name__, frame_from=fno_f, frame_to=fno_t, total_from=tot_f, total_to=tot_t, direction=a_i)
+                if (st == 'ok') != (slice_f == slice_t):
+                    ctx.fail(fcase, f'{"different" if slice_f != slice_t else "the same"} slices: {st} {t if st != "ok" else ""}', site='for_images')
+                elif st == 'ok' and (st_w != 'ok' or np.abs(t.affine - want.affine).max() > 1e-7 * (1 + np.abs(want.affine).max())):
+                    ctx.fail(fcase, {'what': 'for_images differs from the constructor on the attributes of the two sides',
+                                     'got': t.affine.tolist(), 'want': want.affine.tolist() if st_w == 'ok' else want}, site='for_images')
+            _for_images_compare(reqs, pend, case, ds_f, ds_t, fno_f, fno_t, tot_f, tot_t, tol, descs[a_i], descs[1 - a_i])
 
 
 # ------------------------------------------------------------------ 5a. TILED_FULL images in general form
@@ -2184,6 +2293,7 @@ def run(ctx):
     _volume_attr_cases(ctx)
     _dataset_cases(ctx, reqs, pend)
     _coord_cases(ctx, reqs, pend)
+    _cross_cases(ctx, reqs, pend)
     _history_cases(ctx)
     _compare(ctx, reqs, pend)
 
@@ -2193,7 +2303,7 @@ def replay(ctx, case):
     sub = type(ctx)(ctx.prop, ctx.tier, ctx.seed, 1, ctx.driver)
     sub.model_available = False
     fn = case.get('fn', '') if isinstance(case, dict) else ''
-    streams = [_affine_cases, _transformer_cases, _batch_cases, _pair_cases, _letters_cases, _components_cases, _dataset_cases, _coord_cases]
+    streams = [_affine_cases, _transformer_cases, _batch_cases, _pair_cases, _letters_cases, _components_cases, _dataset_cases, _coord_cases, _cross_cases]
     for s in streams:
         s(sub, [], [])
     _volume_attr_cases(sub)
